@@ -272,6 +272,13 @@ func runOne(f func()) (outcome string) {
 	return "completed"
 }
 
+// OnCase registers f to run before every natively replayed case: harness packages reset their
+// package-level knobs there (the engine starts every path from freshly initialised globals, a
+// native test binary runs all cases in one process).
+func OnCase(f func()) { caseHooks = append(caseHooks, f) }
+
+var caseHooks []func()
+
 // ReplayMain runs every case in the file named by VERIF_REPLAY and prints one
 // line per case.
 func ReplayMain(harnesses map[string]func()) {
@@ -306,6 +313,9 @@ func ReplayMain(harnesses map[string]func()) {
 		out := ""
 		for r := 0; r < runs; r++ {
 			cur, counts, observes, reached = c, map[string]int{}, nil, nil
+			for _, h := range caseHooks {
+				h()
+			}
 			out = runOne(f)
 			if out != "completed" {
 				break
